@@ -428,7 +428,7 @@ func ApplyArray(a *zerolog.Array, ops []Op) *zerolog.Array {
 
 // ---------------------------------------------------------------- context ops
 type Cop struct {
-	K   string // op anerr err errs object embed hook timestamp caller reset
+	K   string // op anerr err errs object embed hook levelhook timestamp caller reset
 	O   *Op
 	Key []byte
 	E   *ErrV
@@ -438,6 +438,32 @@ type Cop struct {
 	// caller: Context.Caller() when Skip == CallerGlobal, else Context.CallerWithSkipFrameCount(Skip).
 	// Both register a hook (like Timestamp()). A Skip of CallerBeyond or more is deeper than any stack: no field.
 	Skip int
+	// levelhook: Logger.Hook(zerolog.LevelHook{...}).  LH[i] is the fragment run by the hook installed for level i-1
+	// (LH[0] TraceHook, LH[1] DebugHook ... LH[6] PanicHook, LH[7] NoLevelHook); nil = that field is left unset.
+	LH [8][]Op
+}
+
+// LevelHookOf builds the zerolog.LevelHook a levelhook cop registers.
+func LevelHookOf(lh [8][]Op) zerolog.LevelHook {
+	mk := func(i int) zerolog.Hook {
+		if lh[i] == nil {
+			return nil
+		}
+		return HookM{lh[i]}
+	}
+	h := zerolog.NewLevelHook()
+	h.TraceHook, h.DebugHook, h.InfoHook, h.WarnHook = mk(0), mk(1), mk(2), mk(3)
+	h.ErrorHook, h.FatalHook, h.PanicHook, h.NoLevelHook = mk(4), mk(5), mk(6), mk(7)
+	return h
+}
+
+// LevelHookFrag: the fragment a LevelHook runs for an event of the given level (nil: none), as its documentation
+// says ("applies a different hook for each level"): the hook of that level, nothing for any other level value.
+func (c *Cop) LevelHookFrag(level int) []Op {
+	if c.K != "levelhook" || level < -1 || level > 6 {
+		return nil
+	}
+	return c.LH[level+1]
 }
 
 const (
@@ -500,7 +526,7 @@ func ApplyContext(c zerolog.Context, cops []Cop) zerolog.Context {
 			}
 		case "reset":
 			c = c.Reset()
-		case "hook":
+		case "hook", "levelhook":
 			// applied by the caller after Logger() (see Step)
 		default:
 			panic("ApplyContext: " + co.K)
@@ -514,6 +540,10 @@ type Step struct {
 	Update bool
 	Cops   []Cop
 	Noise  int // byte-neutral derivations interleaved: 1 Level(Trace), 2 Output(same writer), 3 Sample(nil)
+	// Mute: a Level() call after this step that changes whether the chain is enabled at this point, and nothing else:
+	// 1 Level(Disabled) - what is derived from here on is attached to a logger that emits nothing, until a later
+	// Level() re-enables a descendant; 2 Level(-128) - re-enable.  (Case.Run re-enables at the end of the chain if needed.)
+	Mute int
 }
 
 func ApplyStep(l zerolog.Logger, st Step, w zerolog.LevelWriter) zerolog.Logger {
@@ -522,10 +552,19 @@ func ApplyStep(l zerolog.Logger, st Step, w zerolog.LevelWriter) zerolog.Logger 
 	} else {
 		l = ApplyContext(l.With(), st.Cops).Logger()
 		for _, co := range st.Cops {
-			if co.K == "hook" {
+			switch co.K {
+			case "hook":
 				l = l.Hook(HookM{co.Sub})
+			case "levelhook":
+				l = l.Hook(LevelHookOf(co.LH))
 			}
 		}
+	}
+	switch st.Mute {
+	case 1:
+		l = l.Level(zerolog.Disabled)
+	case 2:
+		l = l.Level(zerolog.Level(-128))
 	}
 	switch st.Noise {
 	case 1:
@@ -647,8 +686,25 @@ func OpsCoq(ops []Op, s Settings) string {
 	return CoqList(xs)
 }
 
-func (c *Cop) Coq(s Settings) string {
+func (c *Cop) Coq(s Settings) string { return c.CoqAt(s, nil) }
+
+// CoqAt: level = the level of the case's event (a LevelHook's dispatch on it is evaluated by the model: level_hook in
+// coq/Harness/C01H.v is given the eight fragments and the level)
+func (c *Cop) CoqAt(s Settings, level *int) string {
 	switch c.K {
+	case "levelhook":
+		if level == nil {
+			panic("Cop.Coq: a levelhook needs the event level (use StepsCoqAt)")
+		}
+		xs := make([]string, 8)
+		for i := range xs {
+			if c.LH[i] == nil {
+				xs[i] = "None"
+			} else {
+				xs[i] = "(Some " + OpsCoq(c.LH[i], s) + ")"
+			}
+		}
+		return "(CHook (level_hook " + CoqList(xs) + " " + ZS(int64(*level)) + "))"
 	case "op":
 		return "(COp " + c.O.Coq(s) + ")"
 	case "anerr":
@@ -674,12 +730,17 @@ func (c *Cop) Coq(s Settings) string {
 	panic("Cop.Coq " + c.K)
 }
 
-func StepsCoq(steps []Step, s Settings) string {
+func StepsCoq(steps []Step, s Settings) string { return stepsCoq(steps, s, nil) }
+
+// StepsCoqAt prints a chain that may hold LevelHooks, for an event of the given level
+func StepsCoqAt(steps []Step, s Settings, level int) string { return stepsCoq(steps, s, &level) }
+
+func stepsCoq(steps []Step, s Settings, level *int) string {
 	xs := make([]string, len(steps))
 	for i, st := range steps {
 		cs := make([]string, len(st.Cops))
 		for j := range st.Cops {
-			cs[j] = st.Cops[j].Coq(s)
+			cs[j] = st.Cops[j].CoqAt(s, level)
 		}
 		xs[i] = fmt.Sprintf("(%s, %s)", CoqBool(st.Update), CoqList(cs))
 	}
